@@ -185,13 +185,38 @@ func Resume(
 		if err != nil {
 			return err
 		}
-		idx.InsertNoReplace(c, uint64(sectionOffset))
+		sectionStart := sectionOffset
 
 		// Seek to the next section by skipping the block.
 		// The section length includes the CID, so subtract it.
 		if sectionOffset, err = v1r.Seek(int64(length)-int64(n), io.SeekCurrent); err != nil {
 			return err
 		}
+
+		// A write that was cut short can leave the last section without all of its block bytes.
+		// Such a section was never acknowledged: drop it, so that it is neither indexed nor left
+		// behind as stale bytes, or refuse to resume when the file cannot be truncated.
+		if length > uint64(n) {
+			var last [1]byte
+			if _, err := v1r.ReadAt(last[:], sectionOffset-1); err == io.EOF {
+				t, ok := rw.(interface{ Truncate(size int64) error })
+				if !ok {
+					return errors.New("cannot resume: the last section is incomplete and the file cannot be truncated")
+				}
+				end := sectionStart
+				if !v1 {
+					end += int64(dataOffset)
+				}
+				if err := t.Truncate(end); err != nil {
+					return err
+				}
+				sectionOffset = sectionStart
+				break
+			} else if err != nil {
+				return err
+			}
+		}
+		idx.InsertNoReplace(c, uint64(sectionStart))
 	}
 	// Seek to the end of last skipped block where the writer should resume writing.
 	_, err = dataWriter.Seek(sectionOffset, io.SeekStart)
